@@ -313,7 +313,7 @@ class Models(object):
         # put the constant (if any) on the right
         if not isinstance(a, (SNum, SBool)):
             a, b, ta, tb = b, a, tb, ta
-        if not it.branch(ta >= 0):
+        if not it.p.implied_locally(ta >= 0) and not it.branch(ta >= 0):
             raise Unsupported('bit operation on a possibly negative symbolic integer')
         if not isinstance(b, (SNum, SBool)):
             m = int(b)
